@@ -16,6 +16,7 @@ import (
 	gosync "sync"
 	"sync/atomic"
 	"time"
+	"unsafe"
 )
 
 // Choice is one recorded choice point of an execution.
@@ -32,6 +33,7 @@ type thread struct {
 	id       int
 	name     string
 	wake     chan struct{}
+	run      int32 // race builds: plain word the parked goroutine spins on (invisible to the race detector)
 	pred     func() bool
 	op       string
 	pc       uintptr
@@ -41,31 +43,34 @@ type thread struct {
 
 // Sched is the state of one execution.
 type Sched struct {
-	threads  []*thread
-	cur      *thread
-	prefix   []int
-	Trace    []Choice
-	steps    int
-	Horizon  int
-	aborting int32
-	done     chan struct{}
-	Verdict  string // "ok", "deadlock", "horizon", "panic"
-	Panics   []string
-	Blocked  []string // description of blocked threads at a deadlock
-	closed   map[uintptr]reflect.Value
-	wg       gosync.WaitGroup
-	Log      []string
-	LogOn    bool
+	threads   []*thread
+	cur       *thread
+	prefix    []int
+	Trace     []Choice
+	steps     int
+	Horizon   int
+	aborting  int32
+	done      chan struct{}
+	Verdict   string // "ok", "deadlock", "horizon", "panic"
+	Panics    []string
+	Blocked   []string        // description of blocked threads at a deadlock
+	closed    []reflect.Value // closed channels (kept alive so that their addresses are not reused)
+	wg        gosync.WaitGroup
+	Log       []string
+	LogOn     bool
 	EngineErr string
-	timers   []*Timer
-	objSeq   int
+	timers    []*Timer
+	objSeq    int
 }
 
 var cur atomic.Pointer[Sched]
 
 // Active reports whether a controlled execution is in progress.
+//
+//go:norace
 func Active() bool { s := cur.Load(); return s != nil && atomic.LoadInt32(&s.aborting) == 0 }
 
+//go:norace
 func get() *Sched {
 	s := cur.Load()
 	if s == nil {
@@ -93,8 +98,10 @@ type Result struct {
 // Run executes body as thread 0 under the controlled scheduler, replaying prefix and then
 // taking alternative 0 everywhere. It returns when every thread has finished, or at a
 // deadlock / horizon / panic (remaining threads are torn down).
+//
+//go:norace
 func Run(prefix []int, horizon int, logOn bool, body func()) *Result {
-	s := &Sched{prefix: prefix, Horizon: horizon, done: make(chan struct{}), closed: map[uintptr]reflect.Value{}, LogOn: logOn}
+	s := &Sched{prefix: prefix, Horizon: horizon, done: make(chan struct{}), LogOn: logOn}
 	if !cur.CompareAndSwap(nil, s) {
 		panic("vsched: nested Run")
 	}
@@ -118,10 +125,12 @@ func Run(prefix []int, horizon int, logOn bool, body func()) *Result {
 	return s.result()
 }
 
+//go:norace
 func (s *Sched) result() *Result {
 	return &Result{Trace: s.Trace, Verdict: s.Verdict, Panics: s.Panics, Blocked: s.Blocked, Steps: s.steps, Log: s.Log, EngineErr: s.EngineErr}
 }
 
+//go:norace
 func (s *Sched) newThread(name string) *thread {
 	t := &thread{id: len(s.threads), name: name, wake: make(chan struct{}, 1)}
 	s.threads = append(s.threads, t)
@@ -130,10 +139,11 @@ func (s *Sched) newThread(name string) *thread {
 
 type abortSentinel struct{}
 
+//go:norace
 func (s *Sched) threadMain(t *thread, body func(), waitFirst bool) {
 	defer s.wg.Done()
 	if waitFirst {
-		<-t.wake
+		await(t)
 		if atomic.LoadInt32(&s.aborting) != 0 {
 			return
 		}
@@ -161,6 +171,7 @@ func (s *Sched) threadMain(t *thread, body func(), waitFirst bool) {
 	s.exit(t)
 }
 
+//go:norace
 func trimStack(b []byte) string {
 	lines := strings.Split(string(b), "\n")
 	if len(lines) > 40 {
@@ -171,6 +182,8 @@ func trimStack(b []byte) string {
 
 // enabledThreads returns enabled threads in canonical order: the running thread first if it is
 // still enabled, then ascending ids.
+//
+//go:norace
 func (s *Sched) enabledThreads(running *thread) []*thread {
 	var out []*thread
 	if running != nil && !running.finished && (running.pred == nil || running.pred()) {
@@ -187,6 +200,7 @@ func (s *Sched) enabledThreads(running *thread) []*thread {
 	return out
 }
 
+//go:norace
 func (s *Sched) choose(n int, runningEnabled bool, kind string, cost int, label string) int {
 	idx := 0
 	pos := len(s.Trace)
@@ -202,6 +216,8 @@ func (s *Sched) choose(n int, runningEnabled bool, kind string, cost int, label 
 }
 
 // point parks the running thread at a scheduling point; pred tells when it may continue.
+//
+//go:norace
 func (s *Sched) point(op string, pred func() bool) {
 	t := s.cur
 	t.op, t.pred = op, pred
@@ -228,8 +244,8 @@ func (s *Sched) point(op string, pred func() bool) {
 	if next != t {
 		s.cur = next
 		next.started = true
-		next.wake <- struct{}{}
-		<-t.wake
+		signal(next)
+		await(t)
 		if atomic.LoadInt32(&s.aborting) != 0 {
 			runtime.Goexit()
 		}
@@ -238,6 +254,7 @@ func (s *Sched) point(op string, pred func() bool) {
 	t.op = "running"
 }
 
+//go:norace
 func (s *Sched) exit(t *thread) {
 	t.finished = true
 	if s.LogOn {
@@ -268,9 +285,10 @@ func (s *Sched) exit(t *thread) {
 	}
 	s.cur = next
 	next.started = true
-	next.wake <- struct{}{}
+	signal(next)
 }
 
+//go:norace
 func (s *Sched) deadlock() {
 	for _, x := range s.threads {
 		if !x.finished {
@@ -280,6 +298,7 @@ func (s *Sched) deadlock() {
 	s.finish("deadlock")
 }
 
+//go:norace
 func pcString(pc uintptr) string {
 	if pc == 0 {
 		return "?"
@@ -301,6 +320,7 @@ func pcString(pc uintptr) string {
 	return fmt.Sprintf("%s:%d (%s)", file, line, name)
 }
 
+//go:norace
 func (s *Sched) dump() string {
 	var sb strings.Builder
 	for _, x := range s.threads {
@@ -310,6 +330,8 @@ func (s *Sched) dump() string {
 }
 
 // finish ends the execution: every parked thread is woken and unwinds with Goexit.
+//
+//go:norace
 func (s *Sched) finish(verdict string) {
 	if !atomic.CompareAndSwapInt32(&s.aborting, 0, 1) {
 		return
@@ -317,10 +339,7 @@ func (s *Sched) finish(verdict string) {
 	s.Verdict = verdict
 	for _, x := range s.threads {
 		if !x.finished && x != s.cur {
-			select {
-			case x.wake <- struct{}{}:
-			default:
-			}
+			signal(x)
 		}
 	}
 	// threads that never started are parked on wake too (handled above); the caller unwinds itself
@@ -330,6 +349,8 @@ func (s *Sched) finish(verdict string) {
 // ---- API used by instrumented code and harnesses ----
 
 // Go spawns a controlled thread.
+//
+//go:norace
 func Go(name string, fn func()) {
 	s := get()
 	if s == nil {
@@ -344,6 +365,8 @@ func Go(name string, fn func()) {
 }
 
 // Yield is a plain scheduling point.
+//
+//go:norace
 func Yield(label string) {
 	if s := get(); s != nil {
 		s.point("yield "+label, nil)
@@ -352,6 +375,8 @@ func Yield(label string) {
 
 // WaitUntil parks the running thread until pred holds (pred is evaluated only while no thread
 // runs). Harness building block for fake connections.
+//
+//go:norace
 func WaitUntil(op string, pred func() bool) {
 	if s := get(); s != nil {
 		s.point(op, pred)
@@ -362,6 +387,8 @@ func WaitUntil(op string, pred func() bool) {
 
 // Choose returns a value in [0,n) decided by the explorer (alternative 0 by default; any other
 // alternative costs `cost` deviations).
+//
+//go:norace
 func Choose(n int, cost int, label string) int {
 	s := get()
 	if s == nil || n <= 1 {
@@ -371,6 +398,8 @@ func Choose(n int, cost int, label string) int {
 }
 
 // Logf adds a line to the execution log (when logging is on).
+//
+//go:norace
 func Logf(format string, a ...interface{}) {
 	if s := cur.Load(); s != nil && s.LogOn {
 		s.Log = append(s.Log, fmt.Sprintf(format, a...))
@@ -378,6 +407,8 @@ func Logf(format string, a ...interface{}) {
 }
 
 // ThreadID returns the id of the running thread (-1 outside an execution).
+//
+//go:norace
 func ThreadID() int {
 	if s := cur.Load(); s != nil && s.cur != nil {
 		return s.cur.id
@@ -387,13 +418,21 @@ func ThreadID() int {
 
 // ---- channels ----
 
+//go:norace
 func chanPtr(v reflect.Value) uintptr { return v.Pointer() }
 
+//go:norace
 func (s *Sched) isClosed(v reflect.Value) bool {
-	_, ok := s.closed[chanPtr(v)]
-	return ok
+	p := chanPtr(v)
+	for _, c := range s.closed {
+		if chanPtr(c) == p {
+			return true
+		}
+	}
+	return false
 }
 
+//go:norace
 func sendReady(s *Sched, v reflect.Value) bool {
 	if !v.IsValid() || v.IsNil() {
 		return false
@@ -401,6 +440,7 @@ func sendReady(s *Sched, v reflect.Value) bool {
 	return s.isClosed(v) || v.Len() < v.Cap()
 }
 
+//go:norace
 func recvReady(s *Sched, v reflect.Value) bool {
 	if !v.IsValid() || v.IsNil() {
 		return false
@@ -409,6 +449,8 @@ func recvReady(s *Sched, v reflect.Value) bool {
 }
 
 // Send is called immediately before a native `ch <- v`; it returns when the native send cannot block.
+//
+//go:norace
 func Send(ch interface{}) {
 	s := get()
 	if s == nil {
@@ -422,6 +464,8 @@ func Send(ch interface{}) {
 }
 
 // Recv is called immediately before a native `<-ch`.
+//
+//go:norace
 func Recv(ch interface{}) {
 	s := get()
 	if s == nil {
@@ -432,6 +476,8 @@ func Recv(ch interface{}) {
 }
 
 // Close replaces the builtin close.
+//
+//go:norace
 func Close(ch interface{}) {
 	v := reflect.ValueOf(ch)
 	s := get()
@@ -441,7 +487,7 @@ func Close(ch interface{}) {
 	}
 	s.point("close", nil)
 	if !s.isClosed(v) {
-		s.closed[chanPtr(v)] = v
+		s.closed = append(s.closed, v)
 	}
 	v.Close() // panics like the builtin on a closed or nil channel
 }
@@ -452,11 +498,16 @@ type Case struct {
 	Ch   interface{}
 }
 
+//go:norace
 func RecvCase(ch interface{}) Case { return Case{false, ch} }
+
+//go:norace
 func SendCase(ch interface{}) Case { return Case{true, ch} }
 
 // Select decides which clause of a select runs: the index of a ready case, or -1 for default.
 // The native operation of the returned case is then guaranteed not to block.
+//
+//go:norace
 func Select(hasDefault bool, cases ...Case) int {
 	s := get()
 	if s == nil {
@@ -486,6 +537,7 @@ func Select(hasDefault bool, cases ...Case) int {
 	return r[s.choose(len(r), false, "select", 0, "select")]
 }
 
+//go:norace
 func callerString() string {
 	var pcs [1]uintptr
 	runtime.Callers(3, pcs[:])
@@ -498,9 +550,11 @@ func callerString() string {
 type Mutex struct {
 	real gosync.Mutex
 	held bool
+	hb   int32 // address handed to the race detector as this lock's synchronisation variable
 	Name string
 }
 
+//go:norace
 func (m *Mutex) Lock() {
 	s := get()
 	if s == nil {
@@ -509,8 +563,10 @@ func (m *Mutex) Lock() {
 	}
 	s.point("lock", func() bool { return !m.held })
 	m.held = true
+	raceAcquire(unsafe.Pointer(&m.hb))
 }
 
+//go:norace
 func (m *Mutex) TryLock() bool {
 	s := get()
 	if s == nil {
@@ -521,9 +577,11 @@ func (m *Mutex) TryLock() bool {
 		return false
 	}
 	m.held = true
+	raceAcquire(unsafe.Pointer(&m.hb))
 	return true
 }
 
+//go:norace
 func (m *Mutex) Unlock() {
 	s := cur.Load()
 	if s == nil {
@@ -537,6 +595,7 @@ func (m *Mutex) Unlock() {
 	if !m.held {
 		panic("sync: unlock of unlocked mutex")
 	}
+	raceRelease(unsafe.Pointer(&m.hb))
 	m.held = false
 	if UnlockYields {
 		// a point right after the release: code that runs between an Unlock and the next
@@ -553,8 +612,10 @@ type RWMutex struct {
 	real    gosync.RWMutex
 	writer  bool
 	readers int
+	hb      int32
 }
 
+//go:norace
 func (m *RWMutex) Lock() {
 	s := get()
 	if s == nil {
@@ -563,14 +624,20 @@ func (m *RWMutex) Lock() {
 	}
 	s.point("wlock", func() bool { return !m.writer && m.readers == 0 })
 	m.writer = true
+	raceAcquire(unsafe.Pointer(&m.hb))
 }
+
+//go:norace
 func (m *RWMutex) Unlock() {
 	if s := cur.Load(); s == nil {
 		m.real.Unlock()
 		return
 	}
+	raceRelease(unsafe.Pointer(&m.hb))
 	m.writer = false
 }
+
+//go:norace
 func (m *RWMutex) RLock() {
 	s := get()
 	if s == nil {
@@ -579,12 +646,16 @@ func (m *RWMutex) RLock() {
 	}
 	s.point("rlock", func() bool { return !m.writer })
 	m.readers++
+	raceAcquire(unsafe.Pointer(&m.hb))
 }
+
+//go:norace
 func (m *RWMutex) RUnlock() {
 	if s := cur.Load(); s == nil {
 		m.real.RUnlock()
 		return
 	}
+	raceReleaseMerge(unsafe.Pointer(&m.hb))
 	m.readers--
 }
 
@@ -592,16 +663,25 @@ func (m *RWMutex) RUnlock() {
 type WaitGroup struct {
 	real gosync.WaitGroup
 	n    int
+	hb   int32
 }
 
+//go:norace
 func (w *WaitGroup) Add(d int) {
 	if s := cur.Load(); s == nil {
 		w.real.Add(d)
 		return
 	}
+	if d < 0 {
+		raceReleaseMerge(unsafe.Pointer(&w.hb))
+	}
 	w.n += d
 }
+
+//go:norace
 func (w *WaitGroup) Done() { w.Add(-1) }
+
+//go:norace
 func (w *WaitGroup) Wait() {
 	s := get()
 	if s == nil {
@@ -609,6 +689,7 @@ func (w *WaitGroup) Wait() {
 		return
 	}
 	s.point("wg.wait", func() bool { return w.n <= 0 })
+	raceAcquire(unsafe.Pointer(&w.hb))
 }
 
 type Once = gosync.Once
@@ -620,18 +701,24 @@ type Locker = gosync.Locker
 
 // Timer replaces time.Timer: it fires only when the harness says so.
 type Timer struct {
-	C       chan time.Time
-	active  bool
-	Label   string
-	real    *time.Timer
+	C      chan time.Time
+	active bool
+	Label  string
+	real   *time.Timer
 }
 
+//go:norace
 func NewTimer(d time.Duration) *Timer {
 	s := get()
 	if s == nil {
 		rt := time.NewTimer(d)
 		t := &Timer{C: make(chan time.Time, 1), real: rt}
-		go func() { v, ok := <-rt.C; if ok { t.C <- v } }()
+		go func() {
+			v, ok := <-rt.C
+			if ok {
+				t.C <- v
+			}
+		}()
 		return t
 	}
 	t := &Timer{C: make(chan time.Time, 1), active: true}
@@ -639,6 +726,7 @@ func NewTimer(d time.Duration) *Timer {
 	return t
 }
 
+//go:norace
 func (t *Timer) Stop() bool {
 	if t.real != nil {
 		return t.real.Stop()
@@ -648,6 +736,7 @@ func (t *Timer) Stop() bool {
 	return was
 }
 
+//go:norace
 func (t *Timer) Reset(d time.Duration) bool {
 	if t.real != nil {
 		return t.real.Reset(d)
@@ -658,6 +747,8 @@ func (t *Timer) Reset(d time.Duration) bool {
 }
 
 // FireTimers fires every active virtual timer (harness environment event); returns how many fired.
+//
+//go:norace
 func FireTimers() int {
 	s := get()
 	if s == nil {
@@ -678,6 +769,8 @@ func FireTimers() int {
 }
 
 // ActiveTimers reports the number of armed virtual timers.
+//
+//go:norace
 func ActiveTimers() int {
 	s := cur.Load()
 	if s == nil {
@@ -694,4 +787,35 @@ func ActiveTimers() int {
 
 // Controlled is what rewritten select statements ask: true inside a controlled execution, false
 // in free-running mode; during teardown it unwinds the goroutine instead of returning.
+//
+//go:norace
 func Controlled() bool { return get() != nil }
+
+// signal / await hand the baton over. In race builds the hand-off must be invisible to the race
+// detector (a channel or atomic hand-off would be a happens-before edge between consecutive
+// threads and hide every race): the parked goroutine spins on a plain word in uninstrumented
+// code and yields to the Go scheduler in between.
+//
+//go:norace
+func signal(t *thread) {
+	if RaceEnabled {
+		t.run = 1
+		return
+	}
+	select {
+	case t.wake <- struct{}{}:
+	default:
+	}
+}
+
+//go:norace
+func await(t *thread) {
+	if RaceEnabled {
+		for t.run == 0 {
+			runtime.Gosched()
+		}
+		t.run = 0
+		return
+	}
+	<-t.wake
+}
